@@ -69,3 +69,205 @@ Proof.
   intros u v H. destruct u as [|[|[|u]]]; simpl in H; try (destruct H as [H|H]; [subst; simpl; lia | contradiction]);
   try contradiction. destruct u; contradiction.
 Qed.
+
+(** * The front end of get_distances / get_shortest_path (Proofs/BfsFrontProofs.v)
+
+    Vocabulary (definitions in Proofs/BfsFrontProofs.v, all executable):
+    - [wf_pmat m]: every stored column index of m is < p_ncol m;
+    - [gd_matrix m0 tr]   = transpose m0 if tr, else m0;
+    - [gd_bipartite m source_row source_col fb] = (fb, or true when source_row / source_col is given)
+                            || not (p_nrow m = p_ncol m)            (see [bipartite_decision]);
+    - [gd_graph m bip]    = block_undirected m if bip, else p_rows m;
+    - [gd_nodes m bip source source_row source_col] = the source NODES of the graph:
+        not bipartite: source;   bipartite: (source or else source_row) ++ map (n_row + _) source_col;
+    - [mask_of n nodes]   = indicator vector of nodes, length n;
+    - [gd_value_error bip s sr sc] = (bip = false /\ s = None) \/ (bip = true /\ s <> None /\ sr <> None)
+                            \/ (bip = true /\ s = None /\ sr = None /\ sc = None);
+    - [gd_index_error G nodes] = exists v, In v nodes /\ length G <= v. *)
+From SKN Require Import Proofs.BfsFrontProofs.
+Set Warnings "-notation-overridden".
+
+(** [sparse.csr_matrix(input_matrix.T)]: shapes swap, entry (j,i) iff entry (i,j). *)
+Theorem transpose_spec (m : pmat) :
+  wf_pmat m ->
+  p_nrow (transpose m) = p_ncol m /\ p_ncol (transpose m) = p_nrow m /\
+  wf_pmat (transpose m) /\
+  (forall i j, In i (row (p_rows (transpose m)) j) <->
+               i < p_nrow m /\ j < p_ncol m /\ In j (row (p_rows m) i)) /\
+  (forall i j, In i (row (p_rows (transpose m)) j) <-> In j (row (p_rows m) i)).
+Proof. exact (BfsFrontProofs.transpose_spec m). Qed.
+Print Assumptions transpose_spec.
+
+(** [bipartite2undirected]: n_row + n_col nodes; row i -- column node n_row + j, both directions,
+    and nothing else. *)
+Theorem block_undirected_spec (m : pmat) :
+  wf_pmat m ->
+  length (block_undirected m) = p_nrow m + p_ncol m /\
+  wf_graph (block_undirected m) /\
+  forall u v,
+    In v (row (block_undirected m) u) <->
+    (exists j, u < p_nrow m /\ v = p_nrow m + j /\ In j (row (p_rows m) u)) \/
+    (exists j, u = p_nrow m + j /\ v < p_nrow m /\ In j (row (p_rows m) v)).
+Proof. exact (BfsFrontProofs.block_undirected_spec m). Qed.
+Print Assumptions block_undirected_spec.
+
+(** [mask[offset + idx] = 1]: succeeds iff every index is in range, then sets exactly those
+    entries; the only possible error is IndexError, raised iff some index is out of range. *)
+Theorem set_mask_spec (n off : nat) (idx : list nat) (mask : list bool) :
+  (forall mask', set_mask n off idx mask = Ok mask' <->
+     (forall i, In i idx -> off + i < n) /\
+     length mask' = n /\
+     forall v, (nthb mask' v = true <->
+                v < n /\ (nthb mask v = true \/ exists i, In i idx /\ v = off + i))) /\
+  (set_mask n off idx mask = Err IndexError <-> exists i, In i idx /\ n <= off + i) /\
+  (forall e, set_mask n off idx mask = Err e -> e = IndexError).
+Proof. exact (BfsFrontProofs.set_mask_spec n off idx mask). Qed.
+Print Assumptions set_mask_spec.
+
+(** The bipartite decision, in words. *)
+Theorem bipartite_decision (m : pmat) (source_row source_col : option (list nat)) (fb : bool) :
+  gd_bipartite m source_row source_col fb = true <->
+  fb = true \/ source_row <> None \/ source_col <> None \/ p_nrow m <> p_ncol m.
+Proof. exact (gd_bipartite_iff m source_row source_col fb). Qed.
+Print Assumptions bipartite_decision.
+
+(** get_distances, whole function: whenever the call returns [Ok (d, c)] (for ANY pattern matrix,
+    any combination of source / source_row / source_col, transpose and force_bipartite), the
+    concatenated result is exactly the hop-distance vector, in the graph [G] selected by the flags,
+    from the source nodes selected by the arguments; the split is (n_row, n_col) in the bipartite
+    case and there is no second component otherwise. *)
+Theorem get_distances_full_exact (m0 : pmat) (source source_row source_col : option (list nat))
+        (transpose_flag force_bipartite : bool) (d : list Z) (c : option (list Z)) :
+  get_distances m0 source source_row source_col transpose_flag force_bipartite = Ok (d, c) ->
+  let m := gd_matrix m0 transpose_flag in
+  let bip := gd_bipartite m source_row source_col force_bipartite in
+  let G := gd_graph m bip in
+  let nodes := gd_nodes m bip source source_row source_col in
+  let src := mask_of (length G) nodes in
+  let dist := d ++ olist c in
+  ~ gd_value_error bip source source_row source_col /\
+  (forall v, In v nodes -> v < length G) /\
+  (forall v, nthb src v = true <-> In v nodes) /\
+  (if bip
+   then length G = p_nrow m + p_ncol m /\ length d = p_nrow m /\
+        exists c', c = Some c' /\ length c' = p_ncol m
+   else length G = p_nrow m /\ p_nrow m = p_ncol m /\ c = None) /\
+  bfs G src = Some dist /\
+  length dist = length G /\
+  forall v, v < length G ->
+    (forall k, nthz dist v = Z.of_nat k <-> hop G src v k) /\
+    (nthz dist v = (-1)%Z <-> forall k, ~ reachk G src k v).
+Proof.
+  exact (BfsFrontProofs.get_distances_full_exact m0 source source_row source_col
+           transpose_flag force_bipartite d c).
+Qed.
+Print Assumptions get_distances_full_exact.
+
+(** The error branches, exactly; the loop never runs out of fuel; the call succeeds iff neither
+    error condition holds. *)
+Theorem get_distances_errors (m0 : pmat) (source source_row source_col : option (list nat))
+        (transpose_flag force_bipartite : bool) :
+  let m := gd_matrix m0 transpose_flag in
+  let bip := gd_bipartite m source_row source_col force_bipartite in
+  let G := gd_graph m bip in
+  let nodes := gd_nodes m bip source source_row source_col in
+  let call := get_distances m0 source source_row source_col transpose_flag force_bipartite in
+  (call = Err ValueError <-> gd_value_error bip source source_row source_col) /\
+  (call = Err IndexError <->
+     ~ gd_value_error bip source source_row source_col /\ gd_index_error G nodes) /\
+  call <> Err OutOfFuel /\
+  ((exists d c, call = Ok (d, c)) <->
+     ~ gd_value_error bip source source_row source_col /\ forall v, In v nodes -> v < length G).
+Proof.
+  exact (BfsFrontProofs.get_distances_errors m0 source source_row source_col
+           transpose_flag force_bipartite).
+Qed.
+Print Assumptions get_distances_errors.
+
+(** get_shortest_path, whole function, with the call-site routing regenerated from the source
+    (Gen/Routing.v): for the same graph [G] and source nodes as get_distances (no transposition),
+    the result keeps exactly the edges (i,j) of G with i reachable and dist j = dist i + 1. *)
+Theorem get_shortest_path_full_exact (m : pmat) (source source_row source_col : option (list nat))
+        (force_bipartite : bool) (gr : graph) :
+  wf_pmat m ->
+  get_shortest_path sp_fb_to_transpose sp_fb_to_force m source source_row source_col force_bipartite
+    = Ok gr ->
+  let bip := gd_bipartite m source_row source_col force_bipartite in
+  let G := gd_graph m bip in
+  let nodes := gd_nodes m bip source source_row source_col in
+  let src := mask_of (length G) nodes in
+  exists dist,
+    bfs G src = Some dist /\
+    length dist = length G /\
+    (forall v, v < length G ->
+       (forall k, nthz dist v = Z.of_nat k <-> hop G src v k) /\
+       (nthz dist v = (-1)%Z <-> forall k, ~ reachk G src k v)) /\
+    length gr = length G /\
+    forall i j, i < length G ->
+      (In j (row gr i) <->
+       In j (row G i) /\ (0 <= nthz dist i)%Z /\ nthz dist j = (nthz dist i + 1)%Z) /\
+      (In j (row gr i) <->
+       In j (row G i) /\ exists k, hop G src i k /\ hop G src j (S k)).
+Proof.
+  exact (BfsFrontProofs.get_shortest_path_full_exact m source source_row source_col force_bipartite gr).
+Qed.
+Print Assumptions get_shortest_path_full_exact.
+
+(** get_shortest_path fails exactly when its get_distances call fails, with the same error. *)
+Theorem get_shortest_path_errors (m : pmat) (source source_row source_col : option (list nat))
+        (force_bipartite : bool) (e : err) :
+  get_shortest_path sp_fb_to_transpose sp_fb_to_force m source source_row source_col force_bipartite
+    = Err e <->
+  get_distances m source source_row source_col false force_bipartite = Err e.
+Proof.
+  exact (BfsFrontProofs.get_shortest_path_errors sp_fb_to_transpose sp_fb_to_force
+           m source source_row source_col force_bipartite e).
+Qed.
+Print Assumptions get_shortest_path_errors.
+
+(** The brute-force validator used as property oracle by the harness decides hop distances:
+    it accepts a vector iff it is the BFS result (hence iff it meets the specification). *)
+Theorem dist_ok_decides (g : graph) (src : list bool) (dist : list Z) :
+  length src = length g ->
+  (dist_ok g src dist = true <-> bfs g src = Some dist).
+Proof. exact (dist_ok_iff g src dist). Qed.
+Print Assumptions dist_ok_decides.
+
+Theorem dist_ok_spec (g : graph) (src : list bool) (dist : list Z) :
+  dist_ok g src dist = true <->
+  length dist = length g /\
+  forall v, v < length g ->
+    (forall k, nthz dist v = Z.of_nat k <-> hop g src v k) /\
+    (nthz dist v = (-1)%Z <-> forall k, ~ reachk g src k v).
+Proof. exact (dist_ok_final g src dist). Qed.
+Print Assumptions dist_ok_spec.
+
+(** Every distance returned by the loop is -1 or below the number of nodes. *)
+Theorem bfs_dist_bound (g : graph) (src : list bool) (dist : list Z) (v : nat) :
+  length src = length g -> bfs g src = Some dist -> v < length g ->
+  (-1 <= nthz dist v < Z.of_nat (length g))%Z.
+Proof. exact (BfsFrontProofs.bfs_dist_bound g src dist v). Qed.
+Print Assumptions bfs_dist_bound.
+
+(** Non-vacuity of the front-end theorems: a rectangular 2 x 3 biadjacency matrix, transpose = true
+    (so 3 row nodes 0..2 and 2 column nodes 3..4), one row source and one column source; the error
+    branches; get_shortest_path on the untransposed matrix. *)
+Example c10_front_nonvacuous :
+  let m0 := {| p_ncol := 3; p_rows := [[0; 1]; [1]] |} in
+  let m := gd_matrix m0 true in
+  wf_pmat m0 /\
+  gd_bipartite m (Some [0]) (Some [1]) false = true /\
+  gd_graph m true = [[3]; [3; 4]; []; [0; 1]; [1]] /\
+  gd_nodes m true None (Some [0]) (Some [1]) = [0; 4] /\
+  get_distances m0 None (Some [0]) (Some [1]) true false = Ok ([0; 1; -1]%Z, Some [1; 0]%Z) /\
+  dist_ok (gd_graph m true) (mask_of 5 [0; 4]) [0; 1; -1; 1; 0]%Z = true /\
+  get_distances m0 (Some [0]) (Some [0]) None true false = Err ValueError /\
+  get_distances m0 None None None true false = Err ValueError /\
+  get_distances m0 None None (Some [2]) true false = Err IndexError /\
+  get_distances m0 None (Some [0]) (Some [2]) false false = Ok ([0; 2]%Z, Some [1; 1; 0]%Z) /\
+  get_shortest_path sp_fb_to_transpose sp_fb_to_force m0 None (Some [0]) (Some [2]) false
+    = Ok [[2; 3]; []; []; [1]; []].
+Proof.
+  cbv zeta. split; [apply wf_pmatb_sound; vm_compute; reflexivity|].
+  repeat split; vm_compute; reflexivity.
+Qed.
